@@ -12,6 +12,8 @@ use std::panic::{catch_unwind, AssertUnwindSafe};
 use std::process::{Command, Stdio};
 
 pub mod midasw;
+#[cfg(feature = "sim")]
+pub mod sim;
 #[cfg(feature = "c02")]
 pub mod c02;
 #[cfg(feature = "c03")]
